@@ -31,7 +31,7 @@ def _interesting(e):
 
 
 def _behind(e):
-    return e[1] == 'InstallSnap' or (e[1] == 'Deliver' and e[2][1] == 'behind')
+    return e[1] == 'Deliver' and e[2][1] == 'behind'
 
 
 def _paths(ctx, g, n, rng, budget, first=()):
@@ -137,9 +137,9 @@ def run_slice(ctx):
         tlc.cleanup(r)
         n = CFGS[name][1]
         if name == 'g1':
-            ps, c, w = _paths(ctx, g, n, ctx.rng, 34 if quick else None, first=[(lambda e: e[1] in ('Crash', 'Restart'), 24 if quick else 400)])
+            ps, c, w = _paths(ctx, g, n, ctx.rng, 30 if quick else None, first=[(lambda e: e[1] in ('Crash', 'Restart'), 22 if quick else 400)])
         else:
-            ps, c, w = _paths(ctx, g, n, ctx.rng, 28 if quick else 500, first=[(_behind, 10 if quick else 150), (_interesting, 8 if quick else 150)])
+            ps, c, w = _paths(ctx, g, n, ctx.rng, 24 if quick else 500, first=[(_behind, 8 if quick else 150), (_interesting, 8 if quick else 150)])
         graphs[name] = {'states': len(g.states), 'edges': w, 'edges_replayed': c, 'paths': len(ps)}
         ctx.log('graph RaftMode/%s: %d states %d edges -> %d paths covering %d edges' % (name, len(g.states), w, len(ps), c))
         for k, p in enumerate(ps):
